@@ -10,6 +10,13 @@ import (
 
 type P = [2]float64
 
+// nice reports whether v is a multiple of 2^-10 with |v| < 2^15; sums, differences
+// and pairwise products of such values are exact in float64.
+func nice(v float64) bool {
+	w := v * 1024
+	return w == math.Trunc(w) && math.Abs(w) < 1<<25
+}
+
 func rat(f float64) *big.Rat {
 	r := new(big.Rat)
 	r.SetFloat64(f)
@@ -24,6 +31,15 @@ func Orient(a, b, c P) int {
 	l := (b[0] - a[0]) * (c[1] - a[1])
 	r := (b[1] - a[1]) * (c[0] - a[0])
 	det := l - r
+	if nice(a[0]) && nice(a[1]) && nice(b[0]) && nice(b[1]) && nice(c[0]) && nice(c[1]) {
+		// small dyadic coordinates: differences and products are exact in float64
+		if det > 0 {
+			return 1
+		} else if det < 0 {
+			return -1
+		}
+		return 0
+	}
 	bound := 1e-14 * (math.Abs(l) + math.Abs(r))
 	if det > bound {
 		return 1
